@@ -13,6 +13,7 @@ import (
 	"net"
 	"os"
 	"path/filepath"
+	"sync/atomic"
 	"testing"
 	"testing/synctest"
 	"time"
@@ -29,6 +30,17 @@ type wstep struct {
 	Ev string `json:"ev"`
 	X  string `json:"x"`
 	V  int    `json:"v"`
+	// start only: the caller is held at a point INSIDE its call -- G=1: the deadline has been loaded, the locked check has not been
+	// made yet; G=2: the check found nothing, the caller is about to park -- while the steps In (setdl / arrive / close / sockerr,
+	// no time passes) are executed, then released. These are the interleavings of SessionWait.tla between its labels that a script
+	// executed only while callers are parked cannot reach.
+	G  int     `json:"g"`
+	In []wstep `json:"in"`
+}
+
+type gateT struct {
+	side, phase   int64
+	hit, release  chan struct{}
 }
 type wscript struct {
 	Callers int     `json:"callers"`
@@ -183,7 +195,21 @@ func runScript(t *testing.T, s wscript, side, mode, errBy string, sum *summary, 
 			return len(st.RcvQueue)
 		}
 		started := map[string]bool{}
-		for _, st := range s.Steps {
+		var gate atomic.Pointer[gateT]
+		kcp.VerifSetSink(func(ev kcp.VerifEvent) {
+			g := gate.Load()
+			if g == nil || ev.Kind != "s.wait" || ev.Ref != any(R) || ev.A != g.side || ev.B != g.phase {
+				return
+			}
+			if !gate.CompareAndSwap(g, nil) {
+				return
+			}
+			g.hit <- struct{}{} // (the hook points lie outside the session lock)
+			<-g.release
+		})
+		defer kcp.VerifSetSink(nil)
+		var apply func(st wstep)
+		apply = func(st wstep) {
 			sum.Steps++
 			switch st.Ev {
 			case "start":
@@ -194,7 +220,13 @@ func runScript(t *testing.T, s wscript, side, mode, errBy string, sum *summary, 
 				if inflight >= 2 {
 					overlap = true
 				}
-				tr.Add(map[string]any{"ev": "start", "x": x})
+				tr.Add(map[string]any{"ev": "start", "x": x, "g": st.G})
+				var g *gateT
+				if st.G > 0 {
+					g = &gateT{side: map[string]int64{"read": 0, "write": 1}[mode], phase: int64(st.G), hit: make(chan struct{}), release: make(chan struct{})}
+					gate.Store(g)
+				}
+				done := make(chan struct{})
 				go func() {
 					var err error
 					if mode == "write" {
@@ -204,7 +236,24 @@ func runScript(t *testing.T, s wscript, side, mode, errBy string, sum *summary, 
 						_, err = R.Read(b)
 					}
 					results <- result{x, kindOf(err), nowU()}
+					close(done)
 				}()
+				if g != nil {
+					select {
+					case <-g.hit:
+						sum.Kinds[fmt.Sprintf("gate%d", st.G)]++
+						for _, in := range st.In {
+							if in.Ev == "setdl" || in.Ev == "arrive" || in.Ev == "close" || in.Ev == "sockerr" {
+								apply(in)
+								synctest.Wait() // everything the event sets off has happened (the held caller is blocked on the gate)
+							}
+						}
+						close(g.release)
+					case <-done:
+						gate.Store(nil) // the call returned without passing the point
+						sum.Kinds["gate-not-reached"]++
+					}
+				}
 			case "arrive":
 				tr.Add(map[string]any{"ev": "arrive"})
 				if mode == "write" {
@@ -249,6 +298,9 @@ func runScript(t *testing.T, s wscript, side, mode, errBy string, sum *summary, 
 				tr.Add(map[string]any{"ev": "tick", "now": nowU(), "blocked": inflight, "avail": availNow(), "dl": dl, "closed": closed, "serr": serr, "overlap": overlap})
 				time.Sleep(unit - unit/2)
 			}
+		}
+		for _, st := range s.Steps {
+			apply(st)
 			harvest()
 		}
 		// calls still blocked at the end of the script (write side: the periodic update() has told the writers about a window
